@@ -558,3 +558,27 @@ func runWorker(id, shardJSON string) int {
 	out.Flush()
 	return 0
 }
+
+// narrowShards: like yearShards, but the quick tier uses a narrower seam set (for checks whose states cost ~1 ms or more).
+func narrowShards(tier string, seed int64) []Shard {
+	if tier == "thorough" {
+		return yearShards(tier, seed, 9998, "")
+	}
+	in := map[int]bool{}
+	for _, r := range [][2]int{{1, 30}, {236, 240}, {1580, 1584}, {1644, 1646}, {1899, 1901}, {1928, 1930}, {1959, 1961}, {2015, 2030}, {9996, 9998}} {
+		for y := r[0]; y <= r[1]; y++ {
+			in[y] = true
+		}
+	}
+	for y := 1; y <= 9998; y++ {
+		if y%97 == int(((seed%97)+97)%97) {
+			in[y] = true
+		}
+	}
+	var ys []int
+	for y := range in {
+		ys = append(ys, y)
+	}
+	sort.Ints(ys)
+	return splitRanges(toRanges(ys), 16, Shard{Tier: tier, Seed: seed})
+}
